@@ -44,6 +44,7 @@ FUNCTIONS = [
     ("stepup/core/startup.py", None, "reset_interrupted_steps"),
     ("stepup/core/startup.py", None, "rescan_env_vars"),
     ("stepup/core/startup.py", None, "rescan_files"),
+    ("stepup/core/startup.py", None, "rescan_nglobs"),
     ("stepup/core/executor.py", "Executor", "_run_hash_job"),
     ("stepup/core/executor.py", "Executor", "try_skip_job"),
     ("stepup/core/executor.py", "Executor", "validate_dynamic_job"),
@@ -64,9 +65,12 @@ FUNCTIONS = [
 FINGERPRINTS = {
     "stepup/core/startup.py:resume_from_db": ("f73937e0ee9e422b",),
     "stepup/core/startup.py:reset_interrupted_steps": ("ed62a94f9b3c60bd",),
-    "stepup/core/startup.py:rescan_env_vars": ("9974fa94fec49723",),
+    # first shape: the value seen at startup is stored (fix cc92e6e); second: it is not (A->B->A missed)
+    "stepup/core/startup.py:rescan_env_vars": ("93d6fadf2542d1bc", "9974fa94fec49723"),
     "stepup/core/startup.py:rescan_files": ("a64cd5905d5443f5",),
-    "stepup/core/executor.py:Executor._run_hash_job": ("d18aa73b3fe5cff5",),
+    "stepup/core/startup.py:rescan_nglobs": ("447d45a8dbb23181",),
+    # first shape: stale CONFIRMED results are dropped (fix a139b14); second: the shape before it
+    "stepup/core/executor.py:Executor._run_hash_job": ("1c00d122f33c1535", "d18aa73b3fe5cff5"),
     "stepup/core/executor.py:Executor.try_skip_job": ("decd09f009978afd",),
     "stepup/core/executor.py:Executor.validate_dynamic_job": ("5c3f511f7670d82c",),
     "stepup/core/executor.py:Executor._reset_step_to_pending": ("d191ea381b11a367",),
@@ -210,10 +214,13 @@ def _hash_job_rule(tree) -> str:
     for node in ast.walk(fn):
         if isinstance(node, ast.If) and "update_file_hashes" in ast.unparse(ast.Module(body=node.body, type_ignores=[])):
             guards.append(node)
-    if len(guards) != 1:
+    stale = [g for g in guards if ast.unparse(g.test) == "not self._is_stale_confirmation(hash_job)"]
+    guards = [g for g in guards if g not in stale]
+    if len(guards) != 1 or len(stale) > 1:
         raise TranslatorError("_run_hash_job: expected exactly one guarded update_file_hashes")
-    if guards[0].orelse:
+    if guards[0].orelse or (stale and stale[0].orelse):
         raise TranslatorError("_run_hash_job: the guard has an else branch")
+    _hash_job_rule.drops_stale = bool(stale)
 
     atoms = {
         "new_hash != hash_job.old_hash": "changed",
@@ -261,6 +268,54 @@ def _rescan_files_facts(tree):
     return data, m.group(1)
 
 
+def _stale_confirmation_states(tree):
+    """States in which a CONFIRMED result is still applied (Executor._is_stale_confirmation)."""
+    try:
+        fn = find_function(tree, "_is_stale_confirmation", "Executor")
+    except TranslatorError:
+        return None
+    body = body_without_docstring(fn)
+    src = [ast.unparse(b) for b in body]
+    if len(body) != 4 or src[0] != "if hash_job.cause != HashUpdateCause.CONFIRMED:\n    return False" \
+            or src[1] != "file = self.workflow.find(File, hash_job.path)" \
+            or src[2] != "if file is None:\n    return True":
+        raise TranslatorError("_is_stale_confirmation: shape not recognised")
+    ret = body[3]
+    if not (isinstance(ret, ast.Return) and isinstance(ret.value, ast.Compare) and len(ret.value.ops) == 1
+            and isinstance(ret.value.ops[0], ast.NotIn) and ast.unparse(ret.value.left) == "file.get_state()"
+            and isinstance(ret.value.comparators[0], ast.Tuple)):
+        raise TranslatorError("_is_stale_confirmation: return expression not recognised")
+    names = []
+    for e in ret.value.comparators[0].elts:
+        u = ast.unparse(e)
+        if not u.startswith("FileState."):
+            raise TranslatorError(f"_is_stale_confirmation: state not recognised: {u}")
+        names.append(u.split(".")[1])
+    return names
+
+
+def _env_rescan_facts(tree):
+    """rescan_env_vars: a row counts as changed iff os.getenv(name) != stored value; the steps are
+    marked pending in one transaction; does that transaction also store the value that was seen?"""
+    fn = find_function(tree, "rescan_env_vars")
+    src = ast.unparse(fn)
+    if "WHERE NOT node.detached" not in src:
+        raise TranslatorError("rescan_env_vars: selection SQL not recognised")
+    if "new_value = os.getenv(name)\n        if new_value == old_value:\n            continue" not in src:
+        raise TranslatorError("rescan_env_vars: comparison not recognised")
+    blocks = [n for n in ast.walk(fn) if isinstance(n, ast.AsyncWith)
+              and "mark_step_pending" in ast.unparse(ast.Module(body=n.body, type_ignores=[]))]
+    if len(blocks) != 1:
+        raise TranslatorError("rescan_env_vars: expected one transaction that marks steps pending")
+    body = ast.unparse(ast.Module(body=blocks[0].body, type_ignores=[]))
+    stores = "UPDATE env_var SET value = ? WHERE node = ? AND name = ?" in body
+    if stores and "changed.append((new_value, node_i, name))" not in src:
+        raise TranslatorError("rescan_env_vars: stored value is not the value that was compared")
+    if "UPDATE env_var" in src and not stores:
+        raise TranslatorError("rescan_env_vars: env_var is written outside the marking transaction")
+    return stores
+
+
 def _startup_sequence(tree):
     fn = find_function(tree, "resume_from_db")
     seq = []
@@ -301,8 +356,14 @@ def generate(check=True):
             gone = [s for s in want if s not in sites]
             raise TranslatorError(f"call sites that make a step PENDING changed: new={new} gone={gone}")
 
-    rule = _hash_job_rule(parse_module("stepup/core/executor.py"))
+    ex_tree = parse_module("stepup/core/executor.py")
+    rule = _hash_job_rule(ex_tree)
+    drops_stale = _hash_job_rule.drops_stale
+    keep_states = _stale_confirmation_states(ex_tree)
+    if drops_stale != (keep_states is not None):
+        raise TranslatorError("_run_hash_job / _is_stale_confirmation: inconsistent shapes")
     st_tree = parse_module("stepup/core/startup.py")
+    env_stores = _env_rescan_facts(st_tree)
     excluded, confirm_state = _rescan_files_facts(st_tree)
     seq = _startup_sequence(st_tree)
     for name in seq:
@@ -332,8 +393,12 @@ def generate(check=True):
         conf_code = enums.FileState[confirm_state].value
     except KeyError as e:
         raise TranslatorError(f"rescan_files: unknown FileState {e}") from e
+    try:
+        keep_codes = [str(enums.FileState[n].value) for n in (keep_states or [])]
+    except KeyError as e:
+        raise TranslatorError(f"_is_stale_confirmation: unknown FileState {e}") from e
     facts.update(rule=rule, rescan_excluded=excluded, confirm_state=confirm_state, startup=seq,
-                 transitions=len(table))
+                 transitions=len(table), env_stores=env_stores, drops_stale=drops_stale)
     out = [
         "(* GENERATED by translator/gen_noop.py from stepup/core/{executor,startup,workflow,enums}.py. Do not edit. *)",
         "From Coq Require Import List NArith Bool.",
@@ -347,6 +412,14 @@ def generate(check=True):
         "   re-hashed with cause CONFIRMED, every other one with cause EXTERNAL *)",
         f"Definition gen_rescan_excluded : list N := [{'; '.join(exc_codes)}].",
         f"Definition gen_rescan_confirm_state : N := {conf_code}.",
+        "(* Executor._is_stale_confirmation: a CONFIRMED result is applied only while the file is in one",
+        "   of these states (empty list with flag false: the code has no such rule) *)",
+        f"Definition gen_drops_stale_confirmation : bool := {'true' if drops_stale else 'false'}.",
+        f"Definition gen_confirmation_kept_states : list N := [{'; '.join(keep_codes)}].",
+        "",
+        "(* startup.rescan_env_vars: the transaction that marks the steps pending also stores the value",
+        "   that was seen, so that the next start compares against it *)",
+        f"Definition gen_env_rescan_stores_seen_value : bool := {'true' if env_stores else 'false'}.",
         "",
         "(* startup.resume_from_db: 1 reset_interrupted_steps, 2 watch_known_dirs, 3 rescan_env_vars,",
         "   4 rescan_files, 5 rescan_nglobs *)",
